@@ -196,6 +196,7 @@ structure Opts where
   castKeywordStr : Bool := false
   maxParams : Option Nat := none
   minParams : Option Nat := none
+  override : Bool := false          -- these options replace those of the classes parsed underneath (options.py:253)
   deriving Repr
 
 /-- the pre-fix behaviour of each repaired site (all `false` = the code with fixes/C04-*.patch) -/
@@ -411,9 +412,9 @@ def containsCount (W : World V) (L : Legacy) (t : Ty) : List V â†’ Nat â†’ Nat â
 def parseContains (W : World V) (L : Legacy) (o : Opts) (t : Ty) (minC maxC : Option Nat) (v : V) : M V := do
   let c â† containsCount W L t (W.items v) 0 0
   if c == 0 then handleError o (mk K.constraint Site.contains)
-  else if (match minC with | some m => m != 0 && c < m | none => false) then
+  else if (match minC with | some m => decide (c < m) | none => false) then
     handleError o (mk K.constraint Site.contains)
-  else if (match maxC with | some m => m != 0 && c > m | none => false) then
+  else if (match maxC with | some m => decide (c > m) | none => false) then
     handleError o (mk K.constraint Site.contains)
   pure v
 
